@@ -286,14 +286,22 @@ func init() {
 				faultSweep(sc, thorough(), func(sc *sim.Scenario, res *sim.Result) {
 					r.Eval(1)
 					r.Count("fault_variant_runs", 1)
-					r.NonTrivial(fmt.Sprintf("fault|%s|%v", sc.Name, sc.FailAt))
+					r.NonTrivial(fmt.Sprintf("fault|%s|%v", sc.Name, faultPlan(sc)))
 					for i, rp := range res.Responses {
 						if rp.Err != "" {
 							r.Count("outcome.error", 1)
 						}
-						report(sc, map[string]interface{}{"fail_at": sc.FailAt}, res, outcomeMonitor(sc.Requests[i].Kind, rp))
+						report(sc, map[string]interface{}{"fail_at": sc.FailAt, "fail_unlock_at": sc.FailUnlockAt}, res, outcomeMonitor(sc.Requests[i].Kind, rp))
 					}
 				})
+				// every Unlock call reporting a failure, in turn
+				r.Count("unlock_fault_runs", unlockFaultSweep(sc, func(sc *sim.Scenario, res *sim.Result) {
+					r.Eval(1)
+					r.NonTrivial(fmt.Sprintf("fault|%s|%v", sc.Name, faultPlan(sc)))
+					for i, rp := range res.Responses {
+						report(sc, map[string]interface{}{"fail_at": sc.FailAt, "fail_unlock_at": sc.FailUnlockAt}, res, outcomeMonitor(sc.Requests[i].Kind, rp))
+					}
+				}))
 			})
 		}
 		// (3) id family and required-member family
@@ -370,12 +378,13 @@ func init() {
 					judge := func(sc *sim.Scenario, res *sim.Result) {
 						r.Eval(1)
 						r.Count("borrowed_runs", 1)
-						r.NonTrivial(fmt.Sprintf("%s|%v", sc.Name, sc.FailAt))
+						r.NonTrivial(fmt.Sprintf("%s|%v", sc.Name, faultPlan(sc)))
 						for i, rp := range res.Responses {
-							report(sc, map[string]interface{}{"fail_at": sc.FailAt}, res, outcomeMonitor(sc.Requests[i].Kind, rp))
+							report(sc, map[string]interface{}{"fail_at": sc.FailAt, "fail_unlock_at": sc.FailUnlockAt}, res, outcomeMonitor(sc.Requests[i].Kind, rp))
 						}
 					}
 					if i < nBorrowFault {
+						r.Count("unlock_fault_runs", unlockFaultSweep(sc, judge))
 						faultSweep(sc, false, judge)
 					} else {
 						judge(sc, sim.Run(sc))
